@@ -141,6 +141,8 @@ def plot_burst_detect_summary(df_features, sig, fs, threshold_kwargs, xlim=None,
 
             last_cyc = int(cyc['sample_last_' + side_e]) - int(fs * start)
             next_cyc = int(cyc['sample_next_' + side_e]) - int(fs * start)
+            #   A cycle may end on the first sample after the limited times
+            next_cyc = min(next_cyc, len(times) - 1)
             if cyc[column] < threshold_kwargs[osc_key] and last_cyc > 0:
                 axes[0].axvspan(times[last_cyc], times[next_cyc],
                  alpha=0.5, color=color, lw=0)
@@ -234,8 +236,9 @@ def plot_burst_detect_param(df_features, sig, fs, burst_param, thresh,
         sig, times = limit_signal(times, sig, start=xlim[0], stop=xlim[1])
 
         # Remove start / end cycles that tlims falls between
+        #   Sample indices are relative to the start of the limited times here
         df_features = df_features[(df_features['sample_last_' + side_e] >= 0) & \
-                                  (df_features['sample_next_' + side_e] < xlim[1]*fs)]
+                                  (df_features['sample_next_' + side_e] < len(times))]
 
     # Plot burst param
     if interp:
